@@ -23,10 +23,23 @@ def avh16(args, timeout=1800):
     return p
 
 
+_T = [0.0]
+
+
+def stage(name):
+    import time as _t
+    now = _t.time()
+    if _T[0]:
+        vf.log(f"{name}: +{now - _T[0]:.1f}s")
+    _T[0] = now
+
+
 def run(prop, tier, seed, replay=None):
     rep = vf.Report(prop, tier, seed)
+    stage("start")
     vf.build_harness()
     work = vf.fresh_workdir(f"{prop}-{tier}")
+    stage("harness build")
     rng = random.Random(seed)
     if replay:
         payload = json.loads(Path(replay).read_text())["payload"]
@@ -68,11 +81,13 @@ def run(prop, tier, seed, replay=None):
     scn_file.write_text("\n".join(scns) + "\n")
     ev_file = work / "events.ndjson"
     avh16(["serde-run", "--scn", scn_file, "--out", ev_file])
+    stage("model checking + execution")
     events = [l for l in ev_file.read_text().splitlines() if l.strip()]
     if len(events) != len(scns):
         raise vf.ToolError(f"harness recorded {len(events)} events for {len(scns)} scenarios")
     verdicts, st, tr = vf.judge_events(work, "Trace_Serde.tla", "Trace_Serde.cfg", events, chunk=120, jobs=4)
     rep.add_states(st, tr)
+    stage("judging")
     parsed = [json.loads(s) for s in scns]
     evs = [json.loads(e) for e in events]
     rep.cov["traces_validated_against_impl"] = len(events)
@@ -97,6 +112,28 @@ def run(prop, tier, seed, replay=None):
         "the harness' dynamic serde value (harness/src/sv.rs: Serialize issuing the described calls, shape-directed DeserializeSeed, capturing serializer) is trusted to record faithfully",
         "for corpus types the recorded term is what the real type serializes as (capturing serializer); its agreement with the model's term is reported as drift, not verdict",
     ]
+
+    # binding self-test: a corrupted recording must be rejected by the trace spec (not a verdict on the crate)
+    if not replay:
+        clean_ids = {v["id"] for v in verdicts}
+        victims = [e for e in evs if e["id"] not in clean_ids and e["runs"] and e["runs"][0]["ser"]["ok"]
+                   and e["runs"][0]["ser"]["wire"] and e["runs"][0]["de"]["ok"]][:3]
+        if len(victims) == 3:
+            a, b, c = (json.loads(json.dumps(x)) for x in victims)
+            a["runs"][0]["ser"]["n"] += 1                                   # returned count
+            b["runs"][0]["ser"]["wire"][-1] ^= 0x40                          # one emitted byte
+            c["runs"][0]["de"]["back"] = {"c": "unit_struct", "name": "Corrupted"}   # the value read back
+            for i, x in enumerate((a, b, c)):
+                x["id"] = i
+            st_work = work / "selftest"
+            (st_work / "spec").mkdir(parents=True)
+            for f in (work / "spec").iterdir():
+                (st_work / "spec" / f.name).write_bytes(f.read_bytes())
+            sv, _, _ = vf.judge_events(st_work, "Trace_Serde.tla", "Trace_Serde.cfg", [json.dumps(x) for x in (a, b, c)], chunk=10, jobs=1)
+            rejected = {v["id"] for v in sv if any(cl.startswith("C16:") for cl in v.get("fail", []))}
+            rep.cov["binding_selftest"] = {"corrupted_events": 3, "rejected": len(rejected)}
+            if rejected != {0, 1, 2}:
+                raise vf.ToolError(f"binding self-test: corrupted recordings were not all rejected ({sorted(rejected)})")
 
     def replay_of(i):
         return {"scenario": parsed[i], "event": evs[i]}
